@@ -2371,6 +2371,20 @@ class ColFn(ColExpr):
         if filters := self.context_kwargs.get("filter"):
             if len(self.args) == 0:
                 assert self.op == ops.count_star
+                # count(filter=cond) is the number of rows for which `cond` is true, i.e.
+                # the number of non-null values of `CASE WHEN cond THEN true END`.
+                self.op = ops.count
+                self.args = [
+                    CaseExpr(
+                        [
+                            (
+                                functools.reduce(operator.and_, (cond for cond in filters)),
+                                LiteralCol(True),
+                            )
+                        ]
+                    )
+                ]
+                del self.context_kwargs["filter"]
             else:
                 self.args[0] = CaseExpr(
                     [
